@@ -123,10 +123,10 @@ def rbtree_stage(work, rep, ev, tier):
                 cfound = [k in ins[:c["cat"]] for k in range(1, K + 1)] if c["copied"] else [False] * K
                 if real["found"] != wantfound or real["inorder"] != sorted(ins):
                     what = ("rbtree-lookup", "after the inserts %s: keys found %s, in-order %s" % (ins, real["found"], real["inorder"]))
-                elif c["copied"] and (real["cfound"] != cfound or [list(x) for x in real["cpre"]] != [[x[0], x[1]] for x in c["cpre"]]):
-                    what = ("rbtree-copy", "copy taken after %d of the inserts %s: the copy is %s (finds %s) once the original has grown, at the time of the copy it was %s"
-                            % (c["cat"], ins, real["cpre"], real["cfound"], c["cpre"]))
-                elif [list(x) for x in real["pre"]] != [[x[0], x[1]] for x in c["pre"]]:
+                elif c["copied"] and (real["cfound"] != cfound or real["cpre"] != real["at_copy"]):
+                    what = ("rbtree-copy", "copy taken after %d of the inserts %s: the copy is %s (finds %s) once the original has grown, at the time of the copy the tree was %s"
+                            % (c["cat"], ins, real["cpre"], real["cfound"], real["at_copy"]))
+                elif [list(x) for x in real["pre"]] != [[x[0], x[1]] for x in c["pre"]] or (c["copied"] and [list(x) for x in real["cpre"]] != [[x[0], x[1]] for x in c["cpre"]]):
                     DR.append({"ins": ins, "real": real["pre"], "model": c["pre"]})
             if what and what[0] not in seen:
                 seen.add(what[0])
